@@ -46,6 +46,9 @@ const STATEMENTS: &[(&str, &[&str])] = &[
     ("c := mut 2", &["c"]),
     ("y := [10, 20][*c]", &["y"]),
     ("y", &[]),
+    ("y := ([1]~ ? mut int)().1", &["y"]),
+    ("y += 5", &[]),
+    ("x := *y", &["x"]),
 ];
 
 fn dump_vars(interp: &Interpreter, names: &BTreeSet<String>) -> String {
